@@ -17,7 +17,7 @@ pub use merge::ChunkMerger;
 pub use pins::ChunkPinRegistry;
 
 use crate::clock::BoundedClock;
-use crate::ingester::ParquetWriter;
+use crate::ingester::{ChunkMetadata, ParquetWriter};
 use crate::metadata::{CompactionJob, CompactionStatus, MetadataClient, TimeRange};
 use crate::sharding::{ShardAction, ShardMonitor, ShardSplitter};
 use crate::{Error, Result, StorageConfig};
@@ -804,12 +804,51 @@ impl Compactor {
         // Generate target path
         let target_path = self.generate_compacted_path(level);
 
+        let parquet_size = parquet_bytes.len() as u64;
+
         // Upload to object storage
         self.object_store
             .put(&target_path.clone().into(), parquet_bytes.into())
             .await?;
 
+        // Register the merged chunk so that completing the compaction swaps the
+        // sources for a chunk the catalog (and therefore every query) can reach.
+        let (min_timestamp, max_timestamp) = Self::timestamp_bounds(&sorted)?;
+        let chunk_metadata = ChunkMetadata {
+            path: target_path.clone(),
+            min_timestamp,
+            max_timestamp,
+            row_count: sorted.num_rows() as u64,
+            size_bytes: parquet_size,
+        };
+        self.metadata
+            .register_chunk(&target_path, &chunk_metadata)
+            .await?;
+
         Ok(target_path)
+    }
+
+    /// Minimum and maximum of a batch's `timestamp` column (nanoseconds).
+    fn timestamp_bounds(batch: &arrow_array::RecordBatch) -> Result<(i64, i64)> {
+        use arrow_array::cast::AsArray;
+        use arrow_array::types::{Int64Type, TimestampNanosecondType};
+
+        let col = batch
+            .column_by_name("timestamp")
+            .ok_or_else(|| Error::InvalidSchema("Missing timestamp column".into()))?;
+
+        let bounds = if let Some(ts) = col.as_primitive_opt::<TimestampNanosecondType>() {
+            (arrow::compute::min(ts), arrow::compute::max(ts))
+        } else if let Some(ts) = col.as_primitive_opt::<Int64Type>() {
+            (arrow::compute::min(ts), arrow::compute::max(ts))
+        } else {
+            return Err(Error::InvalidSchema(format!(
+                "Timestamp column must be Timestamp(Nanosecond) or Int64, got {:?}",
+                col.data_type()
+            )));
+        };
+
+        Ok((bounds.0.unwrap_or(0), bounds.1.unwrap_or(0)))
     }
 
     /// Garbage collect old chunks with grace period
